@@ -360,6 +360,8 @@ where
             }
         }
 
+        #[cfg(feature = "verif-hooks")]
+        crate::verif_hooks::c06::before_unregister(self.guard.connection_id()).await;
         self.clients.unregister(self.guard, &self.metrics);
         self.metrics.disconnects.inc();
     }
